@@ -158,6 +158,9 @@ func (p c10) Gen(t *rapid.T, env *Env) (*Case, []*Out) {
 				env.Stats.Counters["model_vs_generator_disagree"]++
 				return nil, nil
 			}
+			if tf := w.File(mt); tf != nil && md != "" && md == tf.ClashDef {
+				r.Spelling = "nameclash" // every reference to the name-clash definition, however spelled
+			}
 			meta.Refs = append(meta.Refs, c10Ref{RefUse: r, ModelTag: mt, ModelDef: md})
 			if r.Combo != "" && !r.LocalOnly && r.ToTag != r.FromTag {
 				meta.CrossCombo = true
